@@ -134,6 +134,7 @@ class Evaluator:
         self.closure = closure or {}
         self.fresh = None  # predicate: call term -> is a stateful fresh-value source
         self.fresh_counter = [0]
+        self.props = None  # attr name -> FunctionInfo of a property getter to inline
         a = fi.node.args
         params = [x.arg for x in a.posonlyargs + a.args + a.kwonlyargs]
         if a.vararg:
@@ -205,6 +206,18 @@ class Evaluator:
         loc = ("a", base, e.attr)
         if loc in self.env.heap:
             return self.env.heap[loc]
+        if self.props is not None and base == n("self") and isinstance(e.ctx, ast.Load):
+            getter = self.props(e.attr)
+            if getter is not None and self.inline_depth > 0:
+                sub = Evaluator(self.repo, getter, inline=self.inline,
+                                inline_depth=self.inline_depth - 1,
+                                bindings={"self": n("self")})
+                sub.env.heap.update(self.env.heap)
+                sub.props = self.props
+                sub.cond = self.cond
+                r = sub.run().ret()
+                if r is not None:
+                    return r
         return loc
 
     def e_Subscript(self, e):
@@ -503,9 +516,46 @@ class Evaluator:
 
     def _loop(self, st, it: Term | None, cond: Term | None):
         before = self.env.copy()
+        base_cond = self.cond
+        # ---- pass 1 (discovery): which variables / heap locations does the body
+        # write?  Those are loop-carried: inside the body, before the write, they
+        # hold the value of the *previous* iteration, not the pre-loop value.
+        marks = (len(self.res.stores), len(self.res.effects), len(self.res.calls),
+                 len(self.res.returns), len(self.res.raises), len(self.res.loops),
+                 len(getattr(self.res, "inlined", [])))
+        fresh_saved = self.fresh_counter[0]
         if it is not None:
             self.assign(st.target, ("iter", it), st)
-        base_cond = self.cond
+        self.block(st.body)
+        after1 = self.env
+        changed_vars = [k for k in set(before.vars) | set(after1.vars)
+                        if before.vars.get(k) != after1.vars.get(k)]
+        changed_heap = [k for k in set(before.heap) | set(after1.heap)
+                        if before.heap.get(k, k) != after1.heap.get(k, k)]
+        del self.res.stores[marks[0]:], self.res.effects[marks[1]:], self.res.calls[marks[2]:]
+        del self.res.returns[marks[3]:], self.res.raises[marks[4]:], self.res.loops[marks[5]:]
+        if hasattr(self.res, "inlined"):
+            del self.res.inlined[marks[6]:]
+        self.fresh_counter[0] = fresh_saved
+        # ---- pass 2: the real evaluation with carried locations marked
+        self.env = before.copy()
+        target_names = set()
+        if it is not None:
+            for x in ast.walk(st.target):
+                if isinstance(x, ast.Name):
+                    target_names.add(x.id)
+        for k in changed_vars:
+            if k in target_names:
+                continue
+            self.env.vars[k] = ("carried", k, before.vars.get(k, ("undef", k)))
+        for k in changed_heap:
+            # a location selected by the iteration variable is a different location in
+            # every iteration: nothing is carried through it
+            if any(x[0] == "iter" for x in subterms(k)):
+                continue
+            self.env.heap[k] = ("carried", k, before.heap.get(k, k))
+        if it is not None:
+            self.assign(st.target, ("iter", it), st)
         self.cond = base_cond + ((("inloop", it if it is not None else cond), True),)
         stores0 = len(self.res.stores)
         eff0 = len(self.res.effects)
@@ -607,10 +657,11 @@ class Evaluator:
 
 
 def evaluate(repo: Repo, fi: FunctionInfo, *, inline=None, inline_depth=2,
-             bindings=None, closure=None, fresh=None) -> Result:
+             bindings=None, closure=None, fresh=None, props=None) -> Result:
     ev = Evaluator(repo, fi, inline=inline, inline_depth=inline_depth,
                    bindings=bindings, closure=closure)
     ev.fresh = fresh
+    ev.props = props
     return ev.run()
 
 
@@ -714,6 +765,7 @@ def make_inliner(repo: Repo, targets: dict[str, FunctionInfo] | None = None,
         sub.cond = ev.cond
         sub.fresh = ev.fresh
         sub.fresh_counter = ev.fresh_counter
+        sub.props = ev.props
         r = sub.run()
         rt = r.ret()
         if rt is None:
@@ -861,4 +913,6 @@ def pretty(t, depth: int = 0) -> str:
         return f"<{t[1]}>"
     if tag == "fresh":
         return f"{p(t[2])}@{t[1]}"
+    if tag == "carried":
+        return f"carried[{t[1] if isinstance(t[1], str) else p(t[1])}]"
     return tag + "(" + ", ".join(p(x) if isinstance(x, tuple) else repr(x) for x in t[1:]) + ")"
